@@ -3,7 +3,7 @@
 # Runs every stored seeded change against the quick check of the property it breaks (scratch worktree, never /repo)
 # and writes /verif/seeded/RESULTS.tsv: seed <tab> property <tab> exit <tab> violations <tab> first signature
 cd "$(dirname "$0")/.."
-seeds=("$@"); [ ${#seeds[@]} -eq 0 ] && seeds=($(ls seeded | grep -E '^C[0-9]+-m[0-9]+$'))
+seeds=("$@"); [ ${#seeds[@]} -eq 0 ] && seeds=($(ls seeded | grep -E '^C[0-9]+(-r[0-9]+)?-m[0-9]+$'))
 tmp=$(mktemp)
 for s in "${seeds[@]}"; do
   prop=$(python3 -c "import json;print(json.load(open('seeded/$s/meta.json'))['property'])")
